@@ -1,6 +1,6 @@
 /-
-Property C16 (hash-to-range): `mod_n_from_hash` (the fixed code) returns (Ha mod (N−1)) + 1 ∈ [1, N−1] for EVERY input of
-at least 40 bytes (Ha = the first 40 bytes, big-endian), the Barrett quotient estimate that makes its two correction
+Property C16 (hash-to-range): `mod_n_from_hash` (the fixed code) returns (Ha mod (N−1)) + 1 ∈ [1, N−1] for EVERY input
+(Ha = the first 40 bytes, big-endian; all bytes when fewer), the Barrett quotient estimate that makes its two correction
 rounds sufficient, and the H1 / H2 framing against GM/T 0044.2 §5.4.2 (`Spec.SM9.H1`, `Spec.SM9.H2`).
 Only property theorems here; all lemmas live in `GmVerif.Proofs.SM9Field`.  N := `Spec.SM9.N`.
 -/
@@ -8,28 +8,39 @@ import GmVerif.Proofs.SM9Field
 namespace GmVerif.Thm.C16
 open GmVerif
 
-/-- THE PROPERTY (hash-to-range): for EVERY input of at least 40 bytes the result is (Ha mod (N−1)) + 1 -/
-theorem mod_n_from_hash_correct (ha : List UInt8) (h : 40 ≤ ha.length) :
+/-- THE PROPERTY (hash-to-range): for EVERY input the result is (Ha mod (N−1)) + 1, Ha = the first 40 bytes read as a
+big-endian integer (all the bytes when there are fewer than 40: the fixed code no longer panics on short input) -/
+theorem mod_n_from_hash_correct' (ha : List UInt8) :
     Impl.SM9.mod_n_from_hash ha = .ok (beNat (ha.take 40) % (Spec.SM9.N - 1) + 1) := by
-  rw [← Proofs.SM9Field.N_eq]; exact Proofs.SM9Field.mod_n_from_hash_correct ha h
+  rw [← Proofs.SM9Field.N_eq]; exact Proofs.SM9Field.mod_n_from_hash_correct' ha
+
+theorem mod_n_from_hash_correct (ha : List UInt8) (_h : 40 ≤ ha.length) :
+    Impl.SM9.mod_n_from_hash ha = .ok (beNat (ha.take 40) % (Spec.SM9.N - 1) + 1) := mod_n_from_hash_correct' ha
 
 /-- … which lies in [1, N−1] -/
 theorem mod_n_from_hash_range (ha : List UInt8) (h : 40 ≤ ha.length) :
     ∃ v, Impl.SM9.mod_n_from_hash ha = .ok v ∧ 1 ≤ v ∧ v ≤ Spec.SM9.N - 1 :=
   ⟨_, mod_n_from_hash_correct ha h, Nat.le_add_left 1 _, Nat.mod_lt _ (by decide)⟩
 
-/-- recorded limitation: shorter inputs panic (slice indexing; there is no error channel) -/
-theorem mod_n_from_hash_short (ha : List UInt8) (h : ha.length < 40) : Impl.SM9.mod_n_from_hash ha = .panic :=
-  Proofs.SM9Field.mod_n_from_hash_short ha h
+theorem mod_n_from_hash_range' (ha : List UInt8) :
+    ∃ v, Impl.SM9.mod_n_from_hash ha = .ok v ∧ 1 ≤ v ∧ v ≤ Spec.SM9.N - 1 :=
+  ⟨_, mod_n_from_hash_correct' ha, Nat.le_add_left 1 _, Nat.mod_lt _ (by decide)⟩
+
+/-- fewer than 40 bytes (used to panic in the slice indexing): read as the integer they encode -/
+theorem mod_n_from_hash_short (ha : List UInt8) (h : ha.length < 40) :
+    Impl.SM9.mod_n_from_hash ha = .ok (beNat ha % (Spec.SM9.N - 1) + 1) := by
+  rw [← Proofs.SM9Field.N_eq]; exact Proofs.SM9Field.mod_n_from_hash_short ha h
 
 /-- regression witness for the defect that was fixed (Ha = N−1 must give 1, not 0), the extreme inputs, and the cut at
-40 bytes (bytes 41… are ignored, 39 bytes panic) -/
+40 bytes (bytes 41… are ignored; 39, 1 and 0 bytes are read as the integer they encode) -/
 example : Impl.SM9.mod_n_from_hash (natBE 40 (Spec.SM9.N - 1)) = .ok 1
     ∧ Impl.SM9.mod_n_from_hash (natBE 40 (Spec.SM9.N - 2)) = .ok (Spec.SM9.N - 1)
     ∧ Impl.SM9.mod_n_from_hash (natBE 40 (2 ^ 320 - 1)) = .ok ((2 ^ 320 - 1) % (Spec.SM9.N - 1) + 1)
     ∧ Impl.SM9.mod_n_from_hash (natBE 40 0) = .ok 1
     ∧ Impl.SM9.mod_n_from_hash (natBE 40 (3 * (Spec.SM9.N - 1) - 1) ++ [0xff]) = .ok (Spec.SM9.N - 1)
-    ∧ Impl.SM9.mod_n_from_hash (natBE 39 0) = .panic := by decide +kernel
+    ∧ Impl.SM9.mod_n_from_hash (natBE 39 0) = .ok 1
+    ∧ Impl.SM9.mod_n_from_hash [] = .ok 1
+    ∧ Impl.SM9.mod_n_from_hash [0x05] = .ok 6 := by decide +kernel
 example : (natBE 40 (2 ^ 320 - 1)).length = 40 ∧ beNat ((natBE 40 (2 ^ 320 - 1)).take 40) = 2 ^ 320 - 1 := by
   decide +kernel
 
